@@ -370,14 +370,18 @@ Definition y_iface_ok (U : universe) (t : tid) (j : nat) : bool :=
                      | None => false
                      end) (y_imethods U j).
 
-(** typecheck.typeAssertionExpr: a non-pointer concrete target is rejected when the method found
-    (depth first) for a method name of the source interface has a pointer receiver. *)
+(** typecheck.typeAssertionExpr: for every method name of the source interface the method of the
+    concrete target is looked up depth first; a non-pointer target is rejected when that method has
+    a pointer receiver, any target when its signature differs from the interface's. *)
 Definition y_static_reject (U : universe) (srcm : list (str * N)) (tg : target) : bool :=
+  let bad (t : tid) (isptr : bool) :=
+    existsb (fun ks => match y_lookup_method U t (fst ks) with
+                       | Some (_, m) => (negb isptr && m_ptr m) || negb (N.eqb (m_sig m) (snd ks))
+                       | None => false
+                       end) srcm in
   match tg with
-  | TStruct t => existsb (fun ks => match y_lookup_method U t (fst ks) with
-                                    | Some (_, m) => m_ptr m
-                                    | None => false
-                                    end) srcm
+  | TStruct t => bad t false
+  | TPtr t => bad t true
   | _ => false
   end.
 
